@@ -142,3 +142,45 @@ PROPS["C01"] = {
          "params": {"quick": {"KL": 2, "KEYL": 3}, "thorough": {"KL": 3, "KEYL": 4}}},
     ],
 }
+
+BATCH_STUBS = {"(*github.com/tsuna/gohbase.client).getRegionAndClientForRPC": "github.com/tsuna/gohbase.vBatchLocate"}
+BATCH_FILES = ["root/fakes.go", "root/c08_cache.go", "root/c01_routing.go", "root/c07_sendbatch.go"]
+
+BATCH_CUTS = [{"file": "rpc.go", "from": "func (c *client) getRegionAndClientForRPC(", "to": "func (c *client) getRegionAndClientForRPCOrig("}]
+
+PROPS["C07"] = {
+    "files": BATCH_FILES, "native_files": ["root/c07_sendbatch_native.go"], "native_cuts": BATCH_CUTS,
+    "claim": "For every batch of 1..N puts over 2 regions on 1 or 2 servers, every outcome sequence per call over {success, fatal, "
+             "retry-later, not-serving, connection-dead, silent} for up to TRIES attempts, re-location failing for any call in any retry "
+             "round, and cancellation at any round: res[i] is the last outcome of batch[i] (or that call's own location / context error), "
+             "a success is never overwritten, every slot ends with a response or an error, allOK iff all errors are nil.",
+    "outside": "batches larger than N; more than TRIES attempts per call; the real region client below SendBatch (C03/C02)",
+    "assumptions": ["(*client).getRegionAndClientForRPC is cut: it returns the region/client of the harness layout or fails",
+                    "fake region clients answer synchronously inside QueueBatch"],
+    "jobs": [
+        {"name": "sendbatch_outcomes", "pkg": "root", "entry": "VerifSendBatch", "stubs": BATCH_STUBS, "reach": ["returned"],
+         "params": {"quick": {"PROP": 7, "N": 2, "TRIES": 2, "LOOKUPFAIL": 0, "CANCEL": 0}, "thorough": {"PROP": 7, "N": 3, "TRIES": 3, "LOOKUPFAIL": 0, "CANCEL": 0}}},
+        {"name": "sendbatch_relocate_fails", "pkg": "root", "entry": "VerifSendBatch", "stubs": BATCH_STUBS, "reach": ["returned"],
+         "params": {"quick": {"PROP": 7, "N": 2, "TRIES": 2, "LOOKUPFAIL": 1, "CANCEL": 0}, "thorough": {"PROP": 7, "N": 3, "TRIES": 2, "LOOKUPFAIL": 1, "CANCEL": 0}}},
+        {"name": "sendbatch_cancel", "pkg": "root", "entry": "VerifSendBatch", "stubs": BATCH_STUBS, "reach": ["returned"], "native_retries": 30,
+         "params": {"quick": {"PROP": 7, "N": 2, "TRIES": 2, "LOOKUPFAIL": 0, "CANCEL": 1}, "thorough": {"PROP": 7, "N": 3, "TRIES": 2, "LOOKUPFAIL": 1, "CANCEL": 1}}},
+    ],
+}
+
+PROPS["C12"] = {
+    "files": BATCH_FILES, "native_files": ["root/c07_sendbatch_native.go"], "native_cuts": BATCH_CUTS,
+    "claim": "For every batch of 1..N puts over 2 regions on 1 or 2 servers and every per-call outcome sequence (as C07): a batch that "
+             "mixes tables, repeats a call or contains a non-batchable call at any position is rejected as a whole, nothing is sent and "
+             "every slot carries an error; otherwise every call is sent to the server hosting its region, calls of one region are "
+             "presented in batch order within each QueueBatch, a call is sent again only after a retryable outcome and never after its "
+             "success was received.",
+    "outside": "batches larger than N; the order in which the region client writes a region's actions into the multi-request is "
+               "checked at the region level (C05/C02 harnesses), not here",
+    "assumptions": ["(*client).getRegionAndClientForRPC is cut (as C07)"],
+    "jobs": [
+        {"name": "sendbatch_discipline", "pkg": "root", "entry": "VerifSendBatch", "stubs": BATCH_STUBS, "reach": ["returned"],
+         "params": {"quick": {"PROP": 12, "N": 3, "TRIES": 2, "LOOKUPFAIL": 0, "CANCEL": 0}, "thorough": {"PROP": 12, "N": 3, "TRIES": 3, "LOOKUPFAIL": 1, "CANCEL": 0}}},
+        {"name": "sendbatch_invalid", "pkg": "root", "entry": "VerifSendBatchInvalid", "stubs": BATCH_STUBS, "reach": ["rejected"],
+         "params": {"quick": {"PROP": 12, "N": 2, "TRIES": 2, "LOOKUPFAIL": 0, "CANCEL": 0}, "thorough": {"PROP": 12, "N": 3, "TRIES": 2, "LOOKUPFAIL": 0, "CANCEL": 0}}},
+    ],
+}
